@@ -32,6 +32,12 @@ M = [
     ("C18", "D16-set-ordered-feature-subset", INC, "features_not_in_s = list(self.feature_names)  # ordered: a set would iterate in string-hash order", "features_not_in_s = set(self.feature_names)"),
     ("C09", "D17-probability-kept-in-callers-type", GEO, "self.constant_probability = float(constant_probability)", "self.constant_probability = constant_probability"),
     ("C01", "D18-numpy-scalar-losses-not-unboxed", BASE, "    return loss.item() if isinstance(loss, np.generic) else loss\n", "    return loss\n"),
+    ("C15", "D19-interval-length-kept-in-callers-type", INTERVAL, "self.interval_length = int(interval_length)", "self.interval_length = interval_length"),
+    ("C05", "D20-inner-sample-range-wraps", BATCH, "for _ in range(n_inner_samples):", "for _ in range(1, n_inner_samples + 1):"),
+    ("C13", "D21-no-revert-when-get-raises", RIVER, "        try:\n            loss_i = self._river_metric.get()\n        finally:  # a metric that cannot report a value for this pair must not keep the pair either\n            self._river_metric.revert(y_true=y_true, y_pred=y_prediction)\n",
+     "        loss_i = self._river_metric.get()\n        self._river_metric.revert(y_true=y_true, y_pred=y_prediction)\n"),
+    ("C18", "D22-tracker-keys-in-a-set", MULTI, ["self._tracked_keys: typing.Dict = {}", "                self._tracked_keys[key] = None\n"],
+     ["self._tracked_keys: typing.Set = set()", "                self._tracked_keys.add(key)\n"]),
     # ---- the pre-repair behaviour of D11-D15, kept as mutants -------------------------------------------
     ("C06", "D11-subset-walked-once-per-sample", MARG, "        feature_subset = list(feature_subset)\n        predictions = []\n", "        predictions = []\n"),
     ("C19", "D11-tree-subset-walked-once-per-sample", TREEI, "        feature_subset = list(feature_subset)\n        predictions = []\n", "        predictions = []\n"),
@@ -141,8 +147,8 @@ M = [
     ("C09", "default-probability", GEO, "            self.constant_probability = 1 / self.size\n", "            self.constant_probability = 1 / (self.size + 1)\n"),
     # ---- C13 ---------------------------------------------------------------------------------------
     ("C13", "no-revert-for-repeated-pair", RIVER,
-     "        self._river_metric.revert(y_true=y_true, y_pred=y_prediction)\n        return loss_i * self._sign",
-     "        if getattr(self, '_last', None) != (y_true, repr(y_prediction)):\n            self._river_metric.revert(y_true=y_true, y_pred=y_prediction)\n        self._last = (y_true, repr(y_prediction))\n        return loss_i * self._sign"),
+     "            self._river_metric.revert(y_true=y_true, y_pred=y_prediction)\n        return loss_i * self._sign",
+     "            if getattr(self, '_last', None) != (y_true, repr(y_prediction)):\n                self._river_metric.revert(y_true=y_true, y_pred=y_prediction)\n        self._last = (y_true, repr(y_prediction))\n        return loss_i * self._sign"),
     ("C13", "revert-other-arguments", RIVER, "        self._river_metric.revert(y_true=y_true, y_pred=y_prediction)\n",
      "        self._river_metric.revert(y_true=y_true, y_pred=y_prediction if self._dict_input_metric else y_true)\n"),
     ("C13", "sign-not-flipped-for-binary-metrics", RIVER, "            self._sign = -1.\n",
